@@ -12,9 +12,9 @@ import (
 
 // Input classes. The property quantifies over "pods with DNS-1123 names/namespaces, any owner kind (including none),
 // any pool name". Everything a Kubernetes API server admits for names, owner kinds (CRD kinds must lower-case to a
-// DNS-1035 label) and a DNS-1123 pool name is the core class. Free-text pool annotations and owner kinds with '_' are
-// inside the literal quantifier ("any pool name", "any owner kind") but unusual, so they get their own signatures.
-// Names with characters outside DNS-1123 are OUTSIDE the quantifier: observed and counted, never a violation.
+// DNS-1035 label) and a DNS-1123 pool name is the core class. Free-text pool annotations are inside the quantifier
+// ("any pool name") but unusual, so they get their own signatures. Names with characters outside DNS-1123 and owner
+// kinds containing '_' cannot exist in a cluster: OUTSIDE the quantifier, observed and counted, never a violation.
 const (
 	clsDNS   = "dns1123-inputs"
 	clsPool  = "arbitrary-poolname"
